@@ -108,13 +108,16 @@ def writeCalibrator (u : Option String) : Calibrator → LoadM XmlNode
     let terms ← ts.mapM (writeTerm u)
     pure (mkEl u "PolynomialCalibrator" [] terms)
 
+def writeContextMatch (u : Option String) : List Criterion → LoadM XmlNode
+  | [] => .error Err.other                                        -- IndexError
+  | [.comparison x] => .ok (mkEl u "ContextMatch" [] [writeComparison u x])
+  | [.boolExpr e] => .ok (mkEl u "ContextMatch" [] [writeBoolExpr u e])
+  | cs => .ok (mkEl u "ContextMatch" [] [mkEl u "ComparisonList" [] (cs.map (writeCriterion u))])
+
 def writeContextCalibrator (u : Option String) (c : ContextCalibrator) : LoadM XmlNode := do
-  let cm ← match c.criteria with
-    | [] => throw Err.other                                        -- IndexError
-    | [.comparison x] => pure (mkEl u "ContextMatch" [] [writeComparison u x])
-    | [.boolExpr e] => pure (mkEl u "ContextMatch" [] [writeBoolExpr u e])
-    | cs => pure (mkEl u "ContextMatch" [] [mkEl u "ComparisonList" [] (cs.map (writeCriterion u))])
-  pure (mkEl u "ContextCalibrator" [] [cm, mkEl u "Calibrator" [] [← writeCalibrator u c.calibrator]])
+  let cm ← writeContextMatch u c.criteria
+  let cal ← writeCalibrator u c.calibrator
+  pure (mkEl u "ContextCalibrator" [] [cm, mkEl u "Calibrator" [] [cal]])
 
 def writeLinAdj (u : Option String) (a : LinAdj) : XmlNode :=
   mkEl u "LinearAdjustment" [("intercept", showInt a.intercept), ("slope", showInt a.slope)] []
@@ -122,13 +125,22 @@ def writeLinAdj (u : Option String) (a : LinAdj) : XmlNode :=
 def writeParamInstanceRef (u : Option String) (ref : String) (useCal : Bool) : XmlNode :=
   mkEl u "ParameterInstanceRef" [("parameterRef", ref), ("useCalibratedValue", pyBool useCal)] []
 
+def writeDefaultCal (u : Option String) : Option Calibrator → LoadM (List XmlNode)
+  | some c => match writeCalibrator u c with
+    | .ok x => .ok [mkEl u "DefaultCalibrator" [] [x]]
+    | .error e => .error e
+  | none => .ok []
+
+def writeContextList (u : Option String) (ctxs : List ContextCalibrator) : LoadM (List XmlNode) :=
+  if ctxs.isEmpty then .ok []
+  else match ctxs.mapM (writeContextCalibrator u) with
+    | .ok xs => .ok [mkEl u "ContextCalibratorList" [] xs]
+    | .error e => .error e
+
 def writeEncoding (u : Option String) : Encoding → LoadM XmlNode
   | .num e => do
-    let d ← match e.cals.default with
-      | some c => do pure [mkEl u "DefaultCalibrator" [] [← writeCalibrator u c]]
-      | none => pure []
-    let cs ← if e.cals.contexts.isEmpty then pure []
-      else do pure [mkEl u "ContextCalibratorList" [] (← e.cals.contexts.mapM (writeContextCalibrator u))]
+    let d ← writeDefaultCal u e.cals.default
+    let cs ← writeContextList u e.cals.contexts
     pure (mkEl u (if e.isFloat then "FloatDataEncoding" else "IntegerDataEncoding")
       [("sizeInBits", toString e.size), ("encoding", e.encoding), ("byteOrder", e.byteOrder)] (d ++ cs))
   | .str e => do
